@@ -229,9 +229,14 @@ def r14_4(ctx, counts) -> RuleResult:
     params = f.params()
     child = params[1]
     loops = [x for x in walk_local(f.node) if isinstance(x, ast.For) and isinstance(x.target, ast.Name)]
-    if len(loops) != 1:
-        raise AnalysisError(f'{f.key}: {len(loops)} loops (one loop over the siblings expected)')
-    sib = loops[0].target.id
+    if not loops:
+        raise AnalysisError(f'{f.key}: no loop over the siblings')
+    sibs = sorted({lp.target.id for lp in loops})                 # type: ignore[union-attr]
+    # local aliases of the counted child's name (`name = child.name`)
+    name_alias = [t.id for x in walk_local(f.node) if isinstance(x, ast.Assign)
+                  and stmt_text(x.value) == f'{child}.name'
+                  for t in x.targets if isinstance(t, ast.Name)]
+    child_names = [f'{child}.name'] + name_alias
     cfg = CFG(f.node)
     facts = branch_facts(cfg)
     n = 0
@@ -255,14 +260,17 @@ def r14_4(ctx, counts) -> RuleResult:
             sites.append((a, frozenset(fs0)))
     for a, fs in sites:
         n += 1
-        kind = any(fa.startswith(f'+isinstance({sib}, ') for fa in fs)
-        named = f'+{sib}.name == {child}.name' in fs or f'+{child}.name == {sib}.name' in fs
+        kind = any(fa.startswith(f'+isinstance({sib}, ') for fa in fs for sib in sibs)
+        named = any(f'+{sib}.name == {cn}' in fs or f'+{cn} == {sib}.name' in fs
+                    for sib in sibs for cn in child_names)
         # kinds of `child` still possible at this increment
         excluded = {k for k in NAMED_KINDS if any(
             fa.startswith(f'-isinstance({child}, ') and k in fa for fa in fs)}
         selected = {k for k in NAMED_KINDS if any(
             fa.startswith(f'+isinstance({child}, ') and k in fa for fa in fs)}
         may_be_named = bool(selected) or len(excluded) < len(NAMED_KINDS)
+        if any(f'+{cn} is None' in fs for cn in child_names):
+            may_be_named = False        # a child without a name is not an element or a PI
         res.instances.append(f'{f.key}: `{stmt_text(a)}` sibling kind tested={kind} names equal='
                              f'{named} child may be element/PI={may_be_named}')
         if not kind:
@@ -282,6 +290,85 @@ def r14_4(ctx, counts) -> RuleResult:
         raise AnalysisError(f'{f.key}: only {n} position increments located')
     return res
 
+def r14_7(ctx, counts) -> RuleResult:
+    """etree_iter_paths: the counter behind `step[n]` is keyed by what the step names"""
+    model: Model = ctx.model
+    res = RuleResult(
+        'R14.7', 'STEP-COUNTER-KEY',
+        'etree_iter_paths writes `<step>[n]` with n read from a counter `C[K]`. When the text of '
+        'the step interpolates a variable (the PI target in processing-instruction({name}), '
+        'directly or through a local string built from it), two siblings with different values '
+        'of that variable are selected by different steps and must not share a counter: the key '
+        'K mentions that variable or the expression it was read from. A single counter keyed by '
+        'child.tag (the same factory function for every PI) numbers <?a?><?b?> as a[1], b[2]: '
+        'the second path selects nothing.')
+    mod = model.modules.get('elementpath.etree')
+    f = mod.toplevel_function('etree_iter_paths') if mod is not None else None
+    if f is None:
+        raise AnalysisError('elementpath.etree.etree_iter_paths vanished')
+    assigns: dict[str, list[ast.expr]] = {}
+    for x in walk_local(f.node):
+        if isinstance(x, ast.Assign):
+            for t in x.targets:
+                if isinstance(t, ast.Name):
+                    assigns.setdefault(t.id, []).append(x.value)
+
+    def step_vars(e: ast.AST, depth: int = 0) -> set[str]:
+        """variables a piece of step text depends on (through local string temporaries)"""
+        out: set[str] = set()
+        for y in ast.walk(e):
+            if isinstance(y, ast.Name) and isinstance(y.ctx, ast.Load):
+                defs = assigns.get(y.id, [])
+                strs = [d for d in defs if isinstance(d, (ast.JoinedStr, ast.Constant))]
+                if strs and len(strs) == len(defs) and depth < 3:
+                    for d in strs:
+                        out |= step_vars(d, depth + 1)
+                else:
+                    out.add(y.id)
+        return out
+    n = 0
+    for js in [x for x in walk_local(f.node) if isinstance(x, ast.JoinedStr)]:
+        parts = js.values
+        for i, part in enumerate(parts):
+            if not (isinstance(part, ast.FormattedValue) and isinstance(part.value, ast.Subscript)
+                    and i > 0 and isinstance(parts[i - 1], ast.Constant)
+                    and str(parts[i - 1].value).endswith('[')):
+                continue
+            key = stmt_text(part.value.slice)
+            # the step: everything after the last '/' before the '['
+            step_parts: list[ast.AST] = []
+            for q in reversed(parts[:i]):
+                if isinstance(q, ast.Constant) and '/' in str(q.value):
+                    step_parts.append(ast.Constant(str(q.value).rsplit('/', 1)[1]))
+                    break
+                step_parts.append(q)
+            names = set()
+            for q in step_parts:
+                names |= step_vars(q)
+            names -= {'path'}
+            n += 1
+            missing = []
+            for v in sorted(names):
+                srcs = [stmt_text(d) for d in assigns.get(v, [])]
+                origins = {stmt_text(a) for d in assigns.get(v, []) for a in ast.walk(d)
+                           if isinstance(a, ast.Attribute)}
+                if v not in key and not any(o in key for o in origins):
+                    missing.append(v)
+            res.instances.append(f'{f.key}: L{js.lineno} position read from `{stmt_text(part.value)}`'
+                                 f'; step depends on {sorted(names)}; not in the key: {missing}')
+            if missing:
+                res.fail(finding('R14.7', f, js, f'counter key {key}',
+                                 f'the step of `{stmt_text(js)[:60]}` depends on {missing} but its '
+                                 f'position is counted per `{key}`: siblings that differ in '
+                                 f'{missing} share one numbering, so <?a?><?b?> gives '
+                                 f'processing-instruction(b)[2], which selects nothing'))
+            else:
+                res.ok()
+    counts['step_counters'] = n
+    if n < 2:
+        raise AnalysisError(f'{f.key}: only {n} `[{{C[K]}}]` position parts located (2 confirmed)')
+    return res
+
 
 def run(ctx) -> dict:
     counts: dict[str, int] = {}
@@ -298,6 +385,7 @@ def run(ctx) -> dict:
     r6 = r02_8(ctx, counts)
     r6.title = 'EXPLICIT-STACK-STATE-COMPLETE (R14.6 = R02.8)'
     results.append(r6)
+    results.append(r14_7(ctx, counts))
     return {
         'results': results, 'counts': counts,
         'explanation':
